@@ -25,13 +25,15 @@ from .astutil import norm, walk_no_nested
 
 
 class Atom:
-    __slots__ = ("text", "pol", "node", "origin")
+    __slots__ = ("text", "pol", "node", "origin", "expanded")
 
     def __init__(self, node, pol, origin=None):
         self.node = node
         self.text = norm(node)
         self.pol = pol
         self.origin = origin  # the statement/expression providing the fact
+        self.expanded = False  # a boolean temporary whose definition is
+        #                        also present as atoms of its own
 
     def __repr__(self):
         return ("" if self.pol else "not ") + self.text
@@ -125,6 +127,7 @@ def _expand(atom_list, node):
                 sub = atoms(v, a.pol, a.origin)
                 if not (len(sub) == 1 and sub[0].text == a.text):
                     out.extend(_expand(sub, node))
+                    a.expanded = True
                     out.append(a)
                     continue
         if isinstance(n, ast.BoolOp) and any(
